@@ -177,7 +177,8 @@ impl Lattice {
             }
         }
         let r_node = self.eos.as_ref().unwrap();
-        for l_node in &self.ends[self.len_char()] {
+        // EOS connects from `start_node`, which precedes trailing spaces skipped by ignore_space.
+        for l_node in &self.ends[r_node.start_node] {
             counter.add(r_node.left_id, l_node.right_id, 1);
         }
     }
